@@ -111,6 +111,7 @@ type e2Block struct {
 	ph         tmconsensus.ProposedHeader
 	hash       string
 	acceptable bool
+	badVals    bool // names a validator set other than the one prescribed for its height
 }
 
 // e2Round is the mirror-side truth of one (height, round).
@@ -142,6 +143,7 @@ type e2Chain struct {
 	round    uint32
 	proof    tmconsensus.CommitProof
 	hasProof bool
+	invented bool // the machine never finalized this height under the harness's eyes
 }
 
 type e2Action struct {
@@ -206,6 +208,12 @@ type e2Cfg struct {
 	planned  bool
 	planSeed uint64
 	allCtl   bool // number the writes of all three stores (crash positions for each)
+
+	// rotate: the application returns a different validator set at every finalization (the
+	// fixture's keys with every power multiplied by a height-dependent factor, so that all
+	// power fractions stay what the generator planned), and some candidate proposals name the
+	// set of a neighbouring height. Used by the C07 state-machine sub-run.
+	rotate bool
 }
 
 type e2World struct {
@@ -220,6 +228,9 @@ type e2World struct {
 	vset  tmconsensus.ValidatorSet
 	total uint64
 	gen   tmconsensus.Genesis
+	vsetMu sync.Mutex
+	vsets map[uint64]tmconsensus.ValidatorSet // rotate: prescribed set per height
+	blocks map[string]*e2Block               // every candidate ever built, by hash
 
 	aStore  *e2AStore
 	fStore  *e2FStore
@@ -788,6 +799,46 @@ func (w *e2World) pow(idx []int) uint64 {
 }
 
 // e2Quorum reports 3*p > 2*total without overflow for the small powers used here.
+// powerFactor is the factor by which every validator's power is multiplied in the set
+// prescribed for height h. Heights init and init+1 use the genesis set (the engine stores the
+// genesis validators as the pseudo-finalization of height init-1); from init+2 on every
+// height has its own factor, so no two neighbouring heights share a set.
+func (w *e2World) powerFactor(h uint64) uint64 {
+	if !w.cfg.rotate || h <= w.gen.InitialHeight+1 {
+		return 1
+	}
+	return h - w.gen.InitialHeight
+}
+
+// vsetAt is the validator set the chain prescribes for height h: the genesis set for the first
+// two heights, otherwise what the harness's driver returns when finalizing h-2.
+func (w *e2World) vsetAt(h uint64) tmconsensus.ValidatorSet {
+	k := w.powerFactor(h)
+	if k == 1 {
+		return w.vset
+	}
+	w.vsetMu.Lock()
+	defer w.vsetMu.Unlock()
+	if vs, ok := w.vsets[h]; ok {
+		return vs
+	}
+	vals := make([]tmconsensus.Validator, len(w.vals))
+	for i, v := range w.vals {
+		vals[i] = tmconsensus.Validator{PubKey: v.PubKey, Power: v.Power * k}
+	}
+	vs, err := tmconsensus.NewValidatorSet(vals, w.fx.HashScheme)
+	if err != nil {
+		panic(err)
+	}
+	if w.vsets == nil {
+		w.vsets = map[uint64]tmconsensus.ValidatorSet{}
+	}
+	w.vsets[h] = vs
+	return vs
+}
+
+func (w *e2World) valsAt(h uint64) []tmconsensus.Validator { return w.vsetAt(h).Validators }
+
 func (w *e2World) isQuorum(p uint64) bool { return 3*p > 2*w.total }
 func (w *e2World) isThird(p uint64) bool  { return 3*p >= w.total }
 
@@ -829,7 +880,7 @@ func (w *e2World) chainAt(h uint64) *e2Chain {
 		return c
 	}
 	b := w.newBlock(h, 0, 1, fmt.Sprintf("invented_%d", h), true)
-	c := &e2Chain{header: b.ph.Header, hash: b.hash, app: w.appHash(h, b.hash), round: 0}
+	c := &e2Chain{header: b.ph.Header, hash: b.hash, app: w.appHash(h, b.hash), round: 0, invented: true}
 	w.chain[h] = c
 	w.count("chain.invented")
 	return c
@@ -845,18 +896,36 @@ func (w *e2World) newBlock(h uint64, r uint32, proposer int, data string, accept
 		Height:           h,
 		PrevBlockHash:    prevHash,
 		PrevCommitProof:  proof,
-		ValidatorSet:     w.vset,
-		NextValidatorSet: w.vset,
+		ValidatorSet:     w.vsetAt(h),
+		NextValidatorSet: w.vsetAt(h + 1),
 		DataID:           []byte(data),
 		PrevAppStateHash: prevApp,
 	}
+	badVals := false
 	if !acceptable {
-		hd.PrevAppStateHash = []byte("wrong_app_state")
+		if w.cfg.rotate && w.rng.IntN(3) != 0 {
+			// a proposal that names the validator set of a neighbouring height in one or both places
+			alt := [][2]uint64{{h + 1, h + 1}, {h, h}, {h, h + 2}, {h + 1, h + 2}, {h + 1, h}}
+			if h > w.gen.InitialHeight {
+				alt = append(alt, [2]uint64{h - 1, h + 1}, [2]uint64{h - 1, h})
+			}
+			a := alt[w.rng.IntN(len(alt))]
+			hd.ValidatorSet, hd.NextValidatorSet = w.vsetAt(a[0]), w.vsetAt(a[1])
+			badVals = !hd.ValidatorSet.Equal(w.vsetAt(h)) || !hd.NextValidatorSet.Equal(w.vsetAt(h+1))
+		}
+		if !badVals {
+			hd.PrevAppStateHash = []byte("wrong_app_state")
+		}
 	}
 	w.fx.RecalculateHash(&hd)
 	ph := tmconsensus.ProposedHeader{Header: hd, Round: r}
 	w.fx.SignProposal(context.Background(), &ph, proposer)
-	return &e2Block{ph: ph, hash: string(hd.Hash), acceptable: acceptable}
+	b := &e2Block{ph: ph, hash: string(hd.Hash), acceptable: acceptable, badVals: badVals}
+	if w.blocks == nil {
+		w.blocks = map[string]*e2Block{}
+	}
+	w.blocks[b.hash] = b
+	return b
 }
 
 func (w *e2World) round(h uint64, r uint32) *e2Round { return w.roundX(h, r, true) }
@@ -882,6 +951,9 @@ func (w *e2World) roundX(h uint64, r uint32, keep bool) *e2Round {
 			proposer = 1 + w.rng.IntN(w.cfg.nVals-1)
 		}
 		acceptable := w.rng.IntN(12) != 0 || w.cfg.planned
+		if w.cfg.rotate && w.rng.IntN(4) == 0 {
+			acceptable = false
+		}
 		rd.cands = append(rd.cands, w.newBlock(h, r, proposer, fmt.Sprintf("data_%d_%d_%d", h, r, i), acceptable))
 	}
 	if old, ok := w.quorumB[h]; ok && !w.cfg.planned && w.rng.IntN(2) == 0 {
@@ -935,11 +1007,11 @@ func (w *e2World) buildVRV(rd *e2Round, kind string) (tmconsensus.VersionedRound
 	rd.version++
 	_, _, proof := w.prevHashApp(rd.h)
 	vs := tmconsensus.NewVoteSummary()
-	vs.SetAvailablePower(w.vals)
+	vs.SetAvailablePower(w.valsAt(rd.h))
 	vrv := tmconsensus.VersionedRoundView{
 		RoundView: tmconsensus.RoundView{
 			Height: rd.h, Round: rd.r,
-			ValidatorSet:    w.vset,
+			ValidatorSet:    w.vsetAt(rd.h),
 			PrevCommitProof: proof,
 			VoteSummary:     vs,
 		},
@@ -962,8 +1034,8 @@ func (w *e2World) buildVRV(rd *e2Round, kind string) (tmconsensus.VersionedRound
 		vrv.PrecommitProofs = w.fx.PrecommitProofMap(ctx, rd.h, rd.r, pc)
 		vrv.PrecommitVersion = rd.version
 	}
-	vrv.VoteSummary.SetPrevotePowers(w.vals, vrv.PrevoteProofs)
-	vrv.VoteSummary.SetPrecommitPowers(w.vals, vrv.PrecommitProofs)
+	vrv.VoteSummary.SetPrevotePowers(w.valsAt(rd.h), vrv.PrevoteProofs)
+	vrv.VoteSummary.SetPrecommitPowers(w.valsAt(rd.h), vrv.PrecommitProofs)
 	ov.VS = vrv.VoteSummary.Clone()
 	w.views = append(w.views, ov)
 	for t, idx := range pc {
@@ -1176,8 +1248,18 @@ func (w *e2World) reader(in *e2Inst, ent e2HR, ch <-chan tmeil.StateMachineRound
 			ph := a.PH
 			ai.kind, ai.hash, ai.ph = "proposal", string(ph.Header.Hash), &ph
 			w.aStore.seen.Store(string(ph.Signature), true)
+			note := fmt.Sprintf("ph=%d/%d", ph.Header.Height, ph.Round)
+			if w.cfg.rotate {
+				// C07: the sets the machine's own proposal names, against the prescribed ones
+				if !ph.Header.ValidatorSet.Equal(w.vsetAt(ph.Header.Height)) {
+					note += " valset=other"
+				}
+				if !ph.Header.NextValidatorSet.Equal(w.vsetAt(ph.Header.Height + 1)) {
+					note += " nextvalset=other"
+				}
+			}
 			w.log.add(e2Ev{K: e2kAction, Inst: in.n, Sub: "proposal", H: ent.H, R: ent.R, Hash: string(ph.Header.Hash), Sig: string(ph.Signature),
-				Note: fmt.Sprintf("ph=%d/%d", ph.Header.Height, ph.Round)})
+				Note: note})
 		case len(a.Prevote.Sig) > 0:
 			ai.kind, ai.hash = "prevote", a.Prevote.TargetHash
 			w.aStore.seen.Store(string(a.Prevote.Sig), true)
@@ -1598,9 +1680,9 @@ func (w *e2World) evOtherRound(rd *e2Round) bool {
 		ov := &e2View{ID: len(w.views) + 1, Kind: "other-round", H: h, R: r, Version: 1 << 20, PHRound: map[string]e2HR{}}
 		w.views = append(w.views, ov)
 		vs := tmconsensus.NewVoteSummary()
-		vs.SetAvailablePower(w.vals)
+		vs.SetAvailablePower(w.valsAt(h))
 		return w.deliver(tmeil.StateMachineRoundView{VRV: tmconsensus.VersionedRoundView{
-			RoundView: tmconsensus.RoundView{Height: h, Round: r, ValidatorSet: w.vset, VoteSummary: vs}, Version: 1 << 20,
+			RoundView: tmconsensus.RoundView{Height: h, Round: r, ValidatorSet: w.vsetAt(h), VoteSummary: vs}, Version: 1 << 20,
 		}}, ov)
 	}
 	or := w.roundX(h, r, false)
@@ -1653,7 +1735,7 @@ func (w *e2World) evFinResp() bool {
 	resp := tmdriver.FinalizeBlockResponse{
 		Height: hh, Round: q.req.Round,
 		BlockHash:    q.req.Header.Hash,
-		Validators:   w.vals,
+		Validators:   w.valsAt(hh + 2),
 		AppStateHash: []byte(w.chain[hh].app),
 	}
 	w.log.add(e2Ev{K: e2kFinResp, H: q.at.H, R: q.at.R, Hash: hash, ID: q.id})
@@ -1969,5 +2051,10 @@ func e2DrawCfg(rng *rand.Rand, prop string) e2Cfg {
 	}
 	cfg.blockData = rng.IntN(2) == 0
 	cfg.catchup = rng.IntN(3) == 0
+	if prop == "C07" {
+		cfg.rotate = true
+		cfg.participate = true
+		cfg.catchup = rng.IntN(6) == 0
+	}
 	return cfg
 }
